@@ -223,7 +223,11 @@ const (
 	MetaProcSubListSubscribers = URI("wamp.subscription.list_subscribers")
 
 	// Obtains the number of sessions currently attached to the subscription.
-	MetaProcSubCountSubscribers = URI("wamp.subscription.count_suscribers")
+	MetaProcSubCountSubscribers = URI("wamp.subscription.count_subscribers")
+
+	// Misspelled URI under which the procedure above used to be registered;
+	// still registered so that existing callers keep working.
+	MetaProcSubCountSubscribersLegacy = URI("wamp.subscription.count_suscribers")
 
 	// Retrieves events history for subscription
 	MetaProcEventHistory = URI("wamp.subscription.get_events")
